@@ -1,12 +1,15 @@
 #!/bin/bash
 # usage: seedcheck.sh <seed-id> <worktree> <check ids...>
 # confirms the demonstration (fails with the change, passes without) and runs the named checks against the changed tree
+# (no git stash: the stash is shared by all worktrees of a repository)
 id=$1; wt=$2; shift 2
 cd "$wt" || exit 2
 echo "== patch"; git diff --stat -- cmdline raid tommyds | tail -3
+git diff -- cmdline raid tommyds > /tmp/seed/$id.own.diff
 make -j8 >/dev/null 2>&1 || { echo "BUILD FAILED"; exit 2; }
 cp snapraid /tmp/seed/$id.seeded.bin
-git stash -q -- cmdline raid tommyds && make -j8 >/dev/null 2>&1; cp snapraid /tmp/seed/$id.orig.bin; git stash pop -q && make -j8 >/dev/null 2>&1
+git apply -R /tmp/seed/$id.own.diff && make -j8 >/dev/null 2>&1; cp snapraid /tmp/seed/$id.orig.bin; git apply /tmp/seed/$id.own.diff && make -j8 >/dev/null 2>&1
+cmp -s snapraid /tmp/seed/$id.seeded.bin || echo "== WARNING: rebuilt changed binary differs from the first build"
 bash SEED/demo.sh /tmp/seed/$id.orig.bin >/tmp/seed/$id.demo.orig.log 2>&1; a=$?
 bash SEED/demo.sh /tmp/seed/$id.seeded.bin >/tmp/seed/$id.demo.seeded.log 2>&1; b=$?
 echo "== demo: unchanged rc=$a  changed rc=$b"
